@@ -16,7 +16,7 @@ import (
 // the others only shape which schedule is explored.
 var (
 	Settle = 150 * time.Microsecond
-	Quiet  = 10 * time.Second
+	Quiet  = 14 * time.Second // above every bounded wait of the engines that a lab case can meet (v1 teardown flush / deferred-ack drain: 10 s)
 )
 
 // CtlResult is the outcome of one control call.
@@ -256,6 +256,7 @@ func RunCaseOpts(c *Case, pick func(n int) int, o RunOpts) *Result {
 	client := append([]ClientAction(nil), c.Client...)
 	maxSteps := 40*c.TotalRecords() + 400
 	finalStops := 0
+	runsSeen := 0
 	silentSince := time.Now()
 	lastAct := w.Log.Activity()
 	step := 0
@@ -292,6 +293,11 @@ func RunCaseOpts(c *Case, pick func(n int) int, o RunOpts) *Result {
 		// The world is idle: nothing pending, nothing logged for `idle`.
 		st, _ := w.Status()
 		out := r.OutstandingCalls()
+		// every run (also one started by recovery) gets its own budget of runner-issued stops
+		if n := runsStarted(w.Log); n != runsSeen {
+			runsSeen = n
+			finalStops = 0
+		}
 		if len(client) > 0 {
 			if client[0].Kind != "wait" && out > 0 && time.Since(silentSince) <= Quiet {
 				continue // the previous control call has not returned yet
@@ -450,4 +456,16 @@ func decodeStoredPosition(raw []byte) (string, bool) {
 		return "", true
 	}
 	return string(sc.State.Position), true
+}
+
+
+// runsStarted counts the successful Running status writes (runs that went live).
+func runsStarted(l *Log) int {
+	n := 0
+	for _, e := range l.Snapshot() {
+		if e.Kind == EvStatus && e.OK && strings.HasPrefix(e.Info, "Running") {
+			n++
+		}
+	}
+	return n
 }
